@@ -2,7 +2,7 @@
 Oracle: LuaSem's call rules (Adjust by syntactic context, varargs, arg table,
 method sugar, __call, host callees) evaluated by TLC on every call shape."""
 import json, random, time
-import vlib, lsem, gen_calls, gen_core
+import vlib, lsem, gen_calls, gen_core, gen_shapes
 from luagen import render
 
 PROP = "C02"
@@ -18,12 +18,18 @@ def run(tier):
         fams.append(("shape", p, root, None))
     for p, root in gen_calls.gen_nested(rng, 1500 if thorough else 300):
         fams.append(("nested", p, root, None))
-    import gen_shapes
     for p, root in gen_shapes.tabcons_cases(rng, 1500 if thorough else 300):
         fams.append(("tabcons", p, root, None))
     for i in range(600 if thorough else 150):
         p, root, src = gen_core.gen_program(vlib.seed() * 1000000 + 500000 + i, feats={"func", "varargs", "table", "closure"}, err_rate=0.05)
         fams.append(("randcall", p, root, src))
+    # the same call shapes among many constants (operands beyond the RK range live in registers)
+    import copy
+    padded = [sp for sp in shapes if sp[0][-1] in ("method", "callobj", "lua")]
+    for s, (p, root) in rng.sample(padded, min(len(padded), 500 if thorough else 90)):
+        p2 = copy.deepcopy(p)
+        p2, root2 = gen_shapes.pad(p2, root, rng.choice([0, 20, 80]), rng.choice([250, 255, 256, 257, 300, 511, 513, 600]))
+        fams.append(("padshape", p2, root2, None))
     progs = lsem.number(fams)
     # deep tail calls under a small call stack (far beyond CallStackSize)
     tails = []
